@@ -19,6 +19,10 @@ var Props = map[string]PropFn{
 	"C01": propC01,
 	"C07": propC07,
 	"C14": propC14,
+	"C12": propC12,
+	"C11": propC11,
+	"C10": propC10,
+	"C19": propC19,
 }
 
 func propC01(c *Ctx) int {
@@ -147,4 +151,104 @@ func propC13(c *Ctx) int {
 		contractLoc, contractRune,
 		"strconv.Atoi, strings.HasPrefix, sync.Once modelled/interpreted as listed in DESIGN.md §2.5",
 	}, map[string]interface{}{"bounds": "n<=13 bytes after the directive start; all byte values"})
+}
+
+const NumC12Prefixes = 62 // len(vC12Prefixes) in harness/scanner/zz_verif_c12.go
+
+func propC12(c *Ctx) int {
+	thorough := c.Tier == "thorough"
+	maxN, k := 4, 2
+	if thorough {
+		maxN, k = 5, 3
+	}
+	base := Job{Pkg: "scanner", Stubs: []string{"loc", "rune"}, PanicIsViolation: true, MaxPaths: 3000000, Timeout: 60 * time.Minute, ReplayCap: 60000}
+	for n := 0; n <= maxN; n++ {
+		j := base
+		j.Name, j.Fn, j.Params = fmt.Sprintf("wf all-symbolic n=%d", n), "HScanWF", map[string]int64{"n": int64(n), "pre": 0}
+		c.RunJob(j)
+	}
+	for pre := 1; pre < NumC12Prefixes; pre++ {
+		j := base
+		j.Name, j.Fn, j.Params = fmt.Sprintf("wf prefix#%d +%dB", pre, k), "HScanWF", map[string]int64{"n": int64(k), "pre": int64(pre)}
+		c.RunJob(j)
+	}
+	// exactness: rendered directive lines
+	type cfg struct{ l1, l2, q1, q2, la, ml, nl int64 }
+	cfgs := []cfg{{2, 0, 0, 0, -1, 0, 0}, {2, 2, 0, 1, -1, 0, 1}, {1, 0, 1, 0, 2, 0, 0}, {2, 0, 0, 0, 2, 1, 2}, {0, 0, 0, 0, 1, 0, 3}, {2, 1, 1, 0, 0, 1, 3}}
+	if thorough {
+		cfgs = append(cfgs, cfg{3, 2, 0, 0, 3, 0, 0}, cfg{3, 0, 1, 0, 3, 1, 1}, cfg{2, 3, 1, 1, 2, 0, 2}, cfg{4, 0, 0, 0, -1, 0, 3})
+	}
+	nkw := int64(14)
+	for kw := int64(0); kw < nkw; kw++ {
+		for ci, g := range cfgs {
+			if !thorough && (int(kw)+ci)%3 != 0 {
+				continue // quick: a third of the matrix (every keyword and every shape still occurs)
+			}
+			j := base
+			j.Name, j.Fn = fmt.Sprintf("exact kw#%d shape#%d", kw, ci), "HScanExact"
+			j.Params = map[string]int64{"kw": kw, "l1": g.l1, "l2": g.l2, "q1": g.q1, "q2": g.q2, "la": g.la, "ml": g.ml, "nl": g.nl}
+			j.MustReach = []string{"exact"}
+			c.RunJob(j)
+		}
+	}
+	return c.Finish("model_checking", []string{
+		fmt.Sprintf("well-formedness: every file of <= %d arbitrary bytes, and %d arbitrary bytes after each of %d state-witness prefixes; exactness: directive lines KW (P1)? (P2)? (annotation)? line-end for 14 keywords with symbolic parameter/annotation bytes (fields <= 3/4 bytes), bare and quoted, // and /* */, LF/CRLF/CR/EOF", maxN, k, NumC12Prefixes-1),
+		"lexeme grammar automaton and expected extents are computed in the harness (harness/scanner/zz_verif_c12.go, zz_verif_c12x.go)",
+		"schema/enum body extents are decided by jsight-schema-core (executed from its SSA); their content is outside the claim",
+		contractLoc, contractRune,
+	}, map[string]interface{}{})
+}
+
+func propC11(c *Ctx) int {
+	maxN := 2
+	if c.Tier == "thorough" {
+		maxN = 3
+	}
+	for n := 1; n <= maxN; n++ {
+		c.RunJob(Job{Name: fmt.Sprintf("context events n=%d", n), Pkg: "core", Fn: "HContext", Params: map[string]int64{"n": int64(n)},
+			Stubs: []string{"loc", "rune"}, PanicIsViolation: true, MaxPaths: 20000000, Timeout: 3 * time.Hour, ReplayCap: 50000,
+			MustReach: []string{"accepted", "rejected"}})
+	}
+	return c.Finish("model_checking", []string{
+		fmt.Sprintf("bound: every sequence of <= %d events, each a directive of any of the 31 kinds (with/without Path, followed or not by '(') or a ')', then end of file — kinds and flags are symbolic integers/booleans", maxN),
+		"reference = frozen context table + stack automaton (harness/core/zz_verif_spec.go, zz_verif_c11.go), never derived from directive/enumeration.go",
+		"the real processContext / closeLastExplicitContext / processEOF / processCurrentDirective are driven in the order core.next calls them; keyword text -> kind is covered by C13, text-level '(' placement by C12",
+		contractLoc,
+	}, map[string]interface{}{})
+}
+
+func propC10(c *Ctx) int {
+	thorough := c.Tier == "thorough"
+	shapes := [][2]int64{{0, 1}, {1, 1}}
+	if thorough {
+		shapes = append(shapes, [2]int64{0, 2}, [2]int64{1, 2})
+	}
+	for _, sh := range shapes {
+		c.RunJob(Job{Name: fmt.Sprintf("paste P=%d S=%d", sh[0], sh[1]), Pkg: "core", Fn: "HPaste", Params: map[string]int64{"np": sh[0], "ns": sh[1]},
+			Stubs: []string{"loc", "rune"}, PanicIsViolation: true, MaxPaths: 20000000, Timeout: 3 * time.Hour, ReplayCap: 50000, MustReach: []string{"same-tree"}})
+	}
+	for m := int64(1); m <= 3; m++ {
+		c.RunJob(Job{Name: fmt.Sprintf("macro graph %d macros", m), Pkg: "core", Fn: "HMacroGraph", Params: map[string]int64{"macros": m},
+			Stubs: []string{"loc", "rune"}, PanicIsViolation: true, MaxPaths: 2000000, Timeout: time.Hour, MaxSteps: 3000000, MaxDepth: 400, MustReach: []string{"expanded"}})
+	}
+	return c.Finish("model_checking", []string{
+		"relational harness: prefix P (<=1 directive) and body S (<=1 quick / 2 thorough directives), kinds/flags symbolic over all 31 kinds; run 1 scans P S in place, run 2 scans MACRO @m ( S ) and P PASTE @m; after collectMacro/checkMacroForRecursion/processPaste the trees must be equal and contain no MACRO/PASTE",
+		"assumed: the rewritten document is itself accepted by the scan (S legal in a MACRO body, PASTE admitted at the call site)",
+		"macro call graphs: <=3 macros with symbolic PASTE targets (defined / undefined / none): cycles of any length => recursion error, undefined => macro-not-found, acyclic => accepted",
+		"catalog equality follows from tree equality: later phases read only directivesWithPastes (text re-indentation is C08, body content outside)",
+		contractLoc, contractRune,
+	}, map[string]interface{}{})
+}
+
+func propC19(c *Ctx) int {
+	for doc := int64(0); doc <= 2; doc++ {
+		c.RunJob(Job{Name: fmt.Sprintf("banned pair doc#%d", doc), Pkg: "core", Fn: "HBanned", Params: map[string]int64{"doc": doc},
+			Stubs: []string{"loc", "rune"}, PanicIsViolation: true, MaxPaths: 100000, Timeout: time.Hour, MaxSteps: 5000000, MaxDepth: 1000,
+			MustReach: []string{"rejected", "unaffected"}})
+	}
+	return c.Finish("model_checking", []string{
+		"bound: three fixed projects (HTTP kitchen sink with MACRO/PASTE/INCLUDE; JSON-RPC; directives only inside an unused MACRO body and only inside an included file) x banned set {b1,b2} symbolic over all 31 kinds",
+		"oracle: some banned kind occurs in the project text => rejected with the not-allowed error located on a keyword of a banned kind; none occurs => same tree and catalog size as without the option",
+		contractLoc, contractRune,
+	}, map[string]interface{}{})
 }
